@@ -148,6 +148,55 @@ pub fn replay_random(case: &Value, rep: &mut Report) {
                     if s != (0..7).collect::<Vec<usize>>() {
                         rep.mismatch("C18", "shuffle_not_a_permutation", &id, json!({"seed": seed}), case);
                     }
+                    // the sequence is a function of the seed alone: a draw over a degenerate or any other interval advances
+                    // the state exactly like every other draw
+                    for (lo, hi) in [(0.5f32, 0.5f32), (0.0, 0.0), (-3.0, 8.0)] {
+                        match guarded(|| {
+                            let mut g = Generator::create(seed);
+                            let first = g.generate(lo, hi);
+                            (first, g.generate(0.0, 2147483648.0))
+                        }) {
+                            Err(p) => rep.mismatch("C18", "generate_panicked", &id, json!({"panic": p, "seed": seed, "min": lo, "max": hi}), case),
+                            Ok((first, second)) => {
+                                if !(first >= lo && first <= hi) {
+                                    rep.mismatch("C18", "value_out_of_range", &id, json!({"seed": seed, "min": lo, "max": hi, "value": first}), case);
+                                }
+                                if second != wb {
+                                    rep.mismatch("C18", "sequence_depends_on_the_requested_intervals", &id, json!({"seed": seed, "first_interval": [lo, hi], "expected_second": wb, "observed_second": second}), case);
+                                }
+                            }
+                        }
+                    }
+                }
+            }
+        }
+        "bigshuffle" => {
+            // vectors longer than 2^24 (where len - 1 is no longer exact in single precision), generator in one of the
+            // states whose next draw has ratio exactly one: no panic, and the result is a permutation
+            let x = case["x"].as_u64().unwrap();
+            let len = usize_of(case, "len");
+            let id = format!("random:bigshuffle:x{}:len{}", x, len);
+            rep.checks += 1;
+            rep.nontrivial(id.clone());
+            let mut values: Vec<usize> = (0..len).collect();
+            match guarded(|| {
+                Generator::create(x).shuffle(&mut values);
+            }) {
+                Err(p) => rep.mismatch("C18", "shuffle_panicked", &id, json!({"panic": p, "len": len}), case),
+                Ok(()) => {
+                    let mut seen = vec![false; len];
+                    let mut ok = values.len() == len;
+                    for v in values.iter() {
+                        let i = *v;
+                        if i >= len || seen[i] {
+                            ok = false;
+                            break;
+                        }
+                        seen[i] = true;
+                    }
+                    if !ok {
+                        rep.mismatch("C18", "shuffle_not_a_permutation", &id, json!({"len": len}), case);
+                    }
                 }
             }
         }
